@@ -74,12 +74,7 @@ def C01(ctx):
     x("c01_r4", soft_if(ctx, d_place, "C01.R5"), f)
     return dict(
         level="other",
-        explanation="Round-trip equality over all payloads is not decided as a whole. Decided, for all 3 840 configuration cells at "
-                    "once: every table a reference decoder depends on (block layouts, codeword counts, generators, GF tables, format/"
-                    "version words, count widths, capacity thresholds), every hand-off between pipeline stages (parameter fidelity, "
-                    "stage chaining, one mask value), and that codeword bits are written only into data-typed modules. Not decided: "
-                    "value computations inside payload loops (push_bits shifts, GF long division, zig-zag order), exact iteration "
-                    "spaces of the mask sweeps, compiler-inserted bounds/overflow asserts.",
+        explanation='Round-trip equality over all payloads is not claimed as a whole. Decided exactly, for every payload: every table a reference decoder depends on (block layouts, codeword counts, generators, GF tables, format/version words, count widths, capacity thresholds), every hand-off between pipeline stages, the interleaved codeword sequence for all 160 (version, level) cells (partial evaluation with symbolic data codewords), the placement of codeword bit i on the i-th data module of the ISO zig-zag order (partial evaluation with symbolic bits), the blank symbol for 40 versions, the format writer and the eight mask sweeps at every coordinate. Not decided: the bit packing inside push_bits/push_u8 and the iteration of the GF division step (only its constants and one-step algebra).',
     )
 
 
@@ -93,11 +88,7 @@ def C02(ctx):
     x("c02_r3", soft_if(ctx, d_il, "C02.R4"), f)
     return dict(
         level="other",
-        explanation="Exhaustive table obligations: every cell of the block-layout, data-codeword, total-codeword, remainder-bit and "
-                    "generator tables is folded out of the compiled program (MIR + evaluated constants) and compared with values "
-                    "derived from ISO Table 9; buffer sizes are read from signatures; EC codewords are shown to come from the "
-                    "division of each block by the selected generator. Not decided: the GF long division loop (C07), the "
-                    "corruption corollary.",
+        explanation="Exhaustive table obligations (every cell of the block-layout, data-codeword, total-codeword, remainder-bit and generator tables against values derived from ISO Table 9), buffer sizes from signatures, and the complete output of polynomials::structure for all 160 cells by partial evaluation with symbolic data codewords: data blocks interleaved in ISO order, then each block's own EC codewords (remainder cells of its own division) interleaved, zero after. Not decided: the GF long-division loop (C07), the corruption corollary.",
     )
 
 
@@ -115,11 +106,7 @@ def C03(ctx):
     G.c04_r3(ctx, f, rid="C03.R4", only_outside=True)
     return dict(
         level="other",
-        explanation="Side = 17+4v and its inverse for all 40 versions, alignment rows V02..V40 against Annex E, which versions carry "
-                    "alignment/version blocks, the backing array size; after the blank symbol is built no function module can be "
-                    "written (every module write outside default:: is edge-dominated by module_type()==Data on the same place; the "
-                    "backing array is mutably borrowed only by the row accessor whose rows are size-long). Payload independence "
-                    "follows from the guard rule. Not decided: the coordinates the drawing loops cover beyond what the rules name.",
+        explanation='The blank symbol is partially evaluated from MIR for all 40 versions and compared module by module (label and fixed value) with an ISO region map: finders, separators, timing, alignment at the Annex E centres, dark module, version information, reserved format strip, light data elsewhere, nothing outside size x size. The only writer of function modules after placement (the format writer) is shown to touch format positions only for every (version, level, mask); every other module write is edge-dominated by module_type()==Data on the same place. Side = 17+4v and its inverse, Annex E rows and the backing array size are table obligations.',
     )
 
 
@@ -137,9 +124,7 @@ def C04(ctx):
     witness.rule(ctx, "C04.W1", "reported parameters are public fields of the documented types", ["w_c04_reported_fields"])
     return dict(
         level="other",
-        explanation="All 32 format words and 34 version words are recomputed from the BCH generator polynomials; the mask written in "
-                    "the format information, the mask applied, the out-parameter and the reported mask have one source; reported "
-                    "level/version/mode are the values used; level defaults to Q; size is Version::size of the version built.",
+        explanation="All 32 format words and 34 version words are recomputed from the BCH generator polynomials; the format writer is partially evaluated: bit k of the word at both ISO copies, 30 positions, nothing else touched; the version blocks carry the BCH(18,6) word at the ISO positions exactly for V07..V40; the mask written in the format information, the mask applied, the out-parameter and the reported mask have one source; reported level/version/mode are the values used; level defaults to Q; QRCode::new's outcome table.",
     )
 
 
@@ -153,12 +138,7 @@ def C05(ctx):
     witness.rule(ctx, "C05.W1", "the error type has exactly the two documented variants", ["w_c05_error_is_exhaustive", "w_c10_build_type"])
     return dict(
         level="proof",
-        explanation="Version::get touches the length only through comparisons with constants, so path enumeration with interval "
-                    "refinement yields, for each of the 12 (mode, level) pairs, the exact partition of ALL usize lengths into "
-                    "version intervals; each is compared with the capacity computed from ISO Table 9 (4 + cci + bits(n) <= 8*data). "
-                    "The gate (forced >= needed), both error edges and the absence of any other Err/panic in QRCode::new are "
-                    "dominance facts over its MIR. Relative to: the encoders emitting exactly bits(n) payload bits (widths checked "
-                    "by C06.T3; push_bits arithmetic not decided).",
+        explanation="Version::get is turned into a decision tree over all usize for the 12 (mode, level) pairs and compared with capacities computed from ISO tables; QRCode::new is partially evaluated into an outcome table (smallest sufficient version / forced version if large enough / 'specified version too small' / 'data too big') around every capacity threshold, for forced and automatic mode and given and defaulted level, with the payload symbolic; the error enum has exactly the two documented variants.",
         assumptions=["encoders emit exactly the bit counts the capacity formula assumes (widths decided by C06.T1/T3)"],
     )
 
@@ -192,10 +172,7 @@ def C07(ctx):
     x("c02_r3", soft_if(ctx, d_il, "C02.R4"), f)
     return dict(
         level="other",
-        explanation="510 reachable GF(256)/0x11D table cells, 13 generator polynomials recomputed from the definition, the 160-cell "
-                    "degree map, buffer obligations of the division (block + generator fit for every cell; zero coefficients "
-                    "skipped). Not decided: that iterating the division step yields the remainder for every content (a linear-map "
-                    "identity over 256^k contents).",
+        explanation="510 reachable GF(256)/0x11D table cells, 13 generator polynomials recomputed from the definition, the 160-cell degree map, buffer obligations of the division (block + generator fit for every cell), the set of coefficient values for which the division step is skipped (exactly {0}, over all 256 byte values), the one-step algebra rem[i+j] ^= exp[(g[j] + log rem[i]) mod 255], and the exact position of every block's EC codewords in the final sequence (C02.R4). Not decided: that iterating the step yields the remainder for every content (a linear-map identity over 256^k contents).",
     )
 
 
@@ -211,10 +188,7 @@ def C08(ctx):
     G.c04_r3(ctx, f, rid="C08.R5", only_outside=True)
     return dict(
         level="other",
-        explanation="Every toggle/set of a module outside blank-symbol construction is guarded by module_type()==Data on the same "
-                    "place (so function patterns are identical under all masks on every path); the dispatcher is total and "
-                    "injective; the mask applied is the mask recorded; the offset tables of patterns 5/6 equal the ISO condition on "
-                    "the tile interior. Not decided: that each sweep toggles exactly the ISO Table 10 set at every coordinate.",
+        explanation="The eight sweeps are partially evaluated on the blank symbol of each version with every module's value a free symbol: the set of modules negated is exactly the data modules satisfying the ISO Table 10 condition of the pattern (number = enum discriminant), labels and function modules are untouched, whatever the values - at every coordinate (quick: V01..V10; thorough: all 40). Every module write outside blank-symbol construction is guarded by module_type()==Data; the mask applied is the mask recorded; the format writer touches format positions only.",
     )
 
 
@@ -357,10 +331,7 @@ def C15(ctx):
                  ["w_c15_callback_type", "w_c15_module_types"])
     return dict(
         level="other",
-        explanation="The label encoding is folded over 8 types x 2 values (new/module_type/value/set/toggle; eight constructors "
-                    "injective); each region writer uses one constructor; the blank array starts all-data and the format strip is "
-                    "reserved; data-module count identity for 40 versions; labels cannot change after construction (guarded writes "
-                    "change bit 0 only). Not decided: the coordinates each writer covers beyond what the rules name.",
+        explanation="The label encoding is folded over 8 types x 2 values; the blank symbol's label map is partially evaluated for all 40 versions and equals the ISO region map, with the data-module count 8 x codewords + remainder bits; the format writer and codeword placement keep every label (partial evaluation); guarded writes change bit 0 only; the module handed to shape callbacks is the one at (row, column) under the dark test.",
     )
 
 
@@ -375,10 +346,7 @@ def C16(ctx):
     P.p1_statics(ctx, f, rid="C16.P1")
     return dict(
         level="other",
-        explanation="The (top, bottom) -> glyph decision table is extracted from print_line's MIR and is the documented bijection; "
-                    "one glyph per column over 0..size; the three line groups (top half-line, row pairs, last row + light row) "
-                    "carry light side glyphs and newline separators; the rows referenced are arithmetic progressions whose closed "
-                    "forms enumerate rows 0..size-1 exactly once for each of the 40 sizes, giving (size+1)/2+1 lines.",
+        explanation='The terminal renderer is partially evaluated with every module value a free symbol; branches on symbols are evaluated both ways and merged at the post-dominator, so every output glyph is a decision table over the modules consulted. Required: (size+1)/2+1 lines of size+2 glyphs, glyph (top, bottom) of the two modules in place, light border all around, for every matrix content (quick: 8 sizes including V39/V40; thorough: all 40). No static state in the crate.',
     )
 
 
@@ -409,9 +377,7 @@ def C18(ctx):
     x("c18_r2", ctx, f)
     return dict(
         level="other",
-        explanation="image_placement is folded over 3 shapes x 40 sizes: frame odd, non-decreasing, < 40% of the side, clear of the "
-                    "finder zone, image within 1..frame. x/y symmetry of every coordinate pair, width = height. Not decided: the "
-                    "floating-point centring/override arithmetic beyond what the rules name.",
+        explanation="SvgBuilder::image is partially evaluated into the frame and image rectangles for 40 versions x 3 shapes x margins 0..16 (the property's whole default domain): centred, on module boundaries, side non-decreasing with the version, < 40% of the side, clear of the finder zones, image centred inside and not larger; size/gap/position overrides are honoured on a stated lattice. image_placement's tables and the x/y symmetry of the arithmetic are table/structural obligations.",
     )
 
 
